@@ -259,6 +259,13 @@ class System:
                             by_all = z3.UGT(cur["gen"][tg], BV(arg))
                             en = z3.Or(by_all, cur["permit"][tg] == 1)
                             upd["permit"][tg] = z3.If(by_all, cur["permit"][tg], BV(0))
+                        elif op == "mutex_lock":
+                            en = cur["val"][tg] == BV(0)
+                            upd["val"][tg] = BV(1)
+                        elif op == "mutex_unlock":
+                            upd["val"][tg] = BV(0)
+                        elif op == "env_call":
+                            pass           # a call into the environment: no shared-state effect, any result of its domain
                         elif op == "spsc_len":
                             extra.append(R == R64(cur["len"][tg]))
                         else:
